@@ -238,7 +238,7 @@ pub fn run(run: &RunInfo) -> Summary {
             cur = next;
         }
         let fin_bytes: Vec<u8> = ls.iter().find(|l| l.is_final).map(|l| l.bytes.clone()).unwrap_or_default();
-        let mut run_one = |prefix: &[&Letter], fault: &Fault, ack_slot: bool, continued: bool, acc: &mut Acc| {
+        let mut run_one = |prefix: &[&Letter], fault: &Fault, ack_slot: bool, continued: bool, resend_ack: bool, acc: &mut Acc| {
             let mut incoming: Vec<u8> = vec![];
             if !ack_slot {
                 incoming.extend(ACK);
@@ -251,6 +251,10 @@ pub fn run(run: &RunInfo) -> Summary {
             if continued {
                 // the terminal carries on as if nothing had happened: a client that does not stop
                 // at the failure would read, acknowledge and yield these packets
+                if ack_slot && resend_ack {
+                    // ... including a positive acknowledgement behind the refused one
+                    incoming.extend(ACK);
+                }
                 incoming.extend(&fin_bytes);
             }
             let mut ctx = Ctx::new(vec![], vec![], 0);
@@ -264,12 +268,12 @@ pub fn run(run: &RunInfo) -> Summary {
             acc.count(&format!("kind:{}", fault.kind), 1);
             let problems = verify(&cmd_bytes, prefix, fault_start, &events, &log);
             let pname: String = prefix.iter().map(|l| l.label.as_str()).collect::<Vec<_>>().join(",");
-            acc.set("outcomes", h64(&(def.name, &pname, &fault.label, ack_slot, continued)));
+            acc.set("outcomes", h64(&(def.name, &pname, &fault.label, ack_slot, continued, resend_ack)));
             if problems.is_empty() {
                 acc.count(&format!("ok:{}", fault.kind), 1);
             } else {
                 acc.violation(viol(
-                    format!("c06/{}/prefix={pname}/{}={}/continued={continued}", def.name, if ack_slot { "ack-slot" } else { "fault" }, fault.label),
+                    format!("c06/{}/prefix={pname}/{}={}/continued={continued}{}", def.name, if ack_slot { "ack-slot" } else { "fault" }, fault.label, if resend_ack { "+ack" } else { "" }),
                     format!(
                         "sequence {} command {}\nvalid prefix: [{pname}]\nfault ({}) in the {}: {} = {}{}\n{}\nevent log:\n{}",
                         def.name,
@@ -362,17 +366,18 @@ pub fn run(run: &RunInfo) -> Summary {
             }
         }
         for f in &ack_faults {
-            run_one(&[], f, true, false, acc);
+            run_one(&[], f, true, false, false, acc);
             if f.kind != "eof" {
-                run_one(&[], f, true, true, acc);
+                run_one(&[], f, true, true, false, acc);
+                run_one(&[], f, true, true, true, acc);
             }
         }
         for w in &prefixes {
             let prefix: Vec<&Letter> = w.iter().map(|i| nfl[*i]).collect();
             for f in &reply_faults {
-                run_one(&prefix, f, false, false, acc);
+                run_one(&prefix, f, false, false, false, acc);
                 if f.kind != "eof" {
-                    run_one(&prefix, f, false, true, acc);
+                    run_one(&prefix, f, false, true, false, acc);
                 }
             }
         }
@@ -401,7 +406,7 @@ pub fn run(run: &RunInfo) -> Summary {
         transitions: acc.get("transitions"),
         traces_validated: execs,
         distinct_nontrivial: acc.set_len("outcomes"),
-        rule: format!("firmware upload: every word of <= {updepth} data requests over the three blocks of a 17-byte file (incl. words after which every byte has been sent) x 10 complete faulty packets (followed by the end of the stream and by a well-formed rest) and every truncation of a completion and of a data request, in the reply slot and in the place of the acknowledgement of the file list; 17 sequences x every valid reply-script prefix of <= {depth} non-final letters x fault in the next slot: NACK 84xx (00, 83, 9C, FF), a bare acknowledgement, every packet of the other reply alphabets, one-byte neighbours of every listed control field (with and without body), malformed bodies the reference decoder rejects as well (empty body before a mandatory field, duplicated tag, last prefixed field cut short, missing mandatory tag), every truncation of every in-set packet followed by the end of the stream, end of stream between packets; every complete faulty packet both followed by the end of the stream and by a well-formed rest of the exchange; a broken pipe at every write of every valid script (the command, each acknowledgement); in the acknowledgement slot: NACKs, every reply packet, neighbours of 80 00, truncated acknowledgements. distinct_nontrivial = distinct (sequence, prefix, fault) cases"),
+        rule: format!("firmware upload: every word of <= {updepth} data requests over the three blocks of a 17-byte file (incl. words after which every byte has been sent) x 10 complete faulty packets (followed by the end of the stream and by a well-formed rest) and every truncation of a completion and of a data request, in the reply slot and in the place of the acknowledgement of the file list; 17 sequences x every valid reply-script prefix of <= {depth} non-final letters x fault in the next slot: NACK 84xx (00, 83, 9C, FF), a bare acknowledgement, every packet of the other reply alphabets, one-byte neighbours of every listed control field (with and without body), malformed bodies the reference decoder rejects as well (empty body before a mandatory field, duplicated tag, last prefixed field cut short, missing mandatory tag), every truncation of every in-set packet followed by the end of the stream, end of stream between packets; every complete faulty packet both followed by the end of the stream and by a well-formed rest of the exchange; a broken pipe at every write of every valid script (the command, each acknowledgement); in the acknowledgement slot (followed by silence, by the rest of the exchange, and by a positive acknowledgement plus the rest): NACKs, every reply packet, neighbours of 80 00, truncated acknowledgements. distinct_nontrivial = distinct (sequence, prefix, fault) cases"),
         exhaustive: true,
         required_witnesses: vec![
             "fault kind 'nack' produced exactly one error and silence".into(),
